@@ -179,6 +179,23 @@ Section Oracle.
   Qed.
 End Oracle.
 
+(* the model meets the oracle also when it is fed what the backends returned and how the
+   select of each requestPart went (the case kind CRace of the correspondence run) *)
+Theorem model_meets_oracle_from_returns (V : Type) (veqb : V -> V -> bool)
+    (ocs : list (outcome V * option ekind)) (arrivals : list (msg V)) :
+  let effs := map (fun oc => effective (fst oc) (snd oc)) ocs in
+  (forall d k v, In d (payload_maps effs) -> In (k, v) d -> veqb v v = true) ->
+  Permutation arrivals (map (fun oc => request_part (return_of (fst oc)) (snd oc)) ocs) ->
+  2 <= List.length ocs ->
+  spec_b veqb effs (merge_run (List.length ocs) arrivals) = true.
+Proof.
+  intros effs Hrefl HP Hl.
+  replace (List.length ocs) with (List.length effs) by apply map_length.
+  apply model_meets_oracle; auto; [|unfold effs; rewrite map_length; exact Hl].
+  unfold effs. rewrite map_map. erewrite map_ext; [exact HP|].
+  intros [o c]. simpl. symmetry. apply request_part_msg_of.
+Qed.
+
 (* the converse of "nil only when no backend answered" also holds of the model *)
 Theorem nil_iff_none_answered (V : Type) (outs : list (outcome V)) (arrivals : list (msg V)) :
   Permutation arrivals (map (@msg_of V) outs) ->
